@@ -12,11 +12,45 @@ pub fn ent(len: u64) -> EntityCfg {
 }
 
 pub fn case(ent: EntityCfg, method: &str, headers: Vec<(String, Vec<u8>)>, class: String) -> ServeCase {
-    let hints = match headers.iter().find(|(k, _)| k == "range") {
-        Some((_, v)) => range_hint(v),
-        None => Val::L(vec![]),
-    };
-    ServeCase { ent, method: method.as_bytes().to_vec(), headers, extra_polls: 2, max_polls: 200, class, hints }
+    let mut hints = vec![];
+    if let Some((_, v)) = headers.iter().find(|(k, _)| k == "range") {
+        hints.push(range_hint(v));
+    }
+    ServeCase { ent, method: method.as_bytes().to_vec(), headers, extra_polls: 2, max_polls: 400, class, hints: Val::L(hints) }
+}
+
+pub fn add_hint(c: &mut ServeCase, key: u64, v: Val) {
+    if let Val::L(l) = &mut c.hints {
+        l.push(Val::L(vec![Val::N(key), v]));
+    }
+}
+
+#[derive(Clone, Debug)]
+pub enum Spec {
+    FromTo(String, String),
+    From(String),
+    Suffix(String),
+}
+impl Spec {
+    pub fn render(&self) -> String {
+        match self {
+            Spec::FromTo(a, b) => format!("{}-{}", a, b),
+            Spec::From(a) => format!("{}-", a),
+            Spec::Suffix(n) => format!("-{}", n),
+        }
+    }
+}
+pub fn render_set(specs: &[(String, Spec)]) -> String {
+    // each element carries the OWS that precedes it (after the comma)
+    let mut s = String::from("bytes=");
+    for (i, (ws, sp)) in specs.iter().enumerate() {
+        if i > 0 {
+            s.push(',');
+        }
+        s.push_str(ws);
+        s.push_str(&sp.render());
+    }
+    s
 }
 
 /// Independent recogniser of RFC 7233 byte-ranges-specifier (OWS tolerated before every
@@ -55,8 +89,8 @@ pub fn recognise_range(h: &[u8]) -> Option<Vec<(Vec<u8>, Spec)>> {
 
 pub fn range_hint(h: &[u8]) -> Val {
     match recognise_range(h) {
-        None => Val::L(vec![Val::L(vec![Val::N(1)])]),
-        Some(ast) => Val::L(vec![Val::L(vec![
+        None => Val::L(vec![Val::N(1), Val::L(vec![])]),
+        Some(ast) => Val::L(vec![
             Val::N(0),
             Val::L(ast
                 .iter()
@@ -71,36 +105,8 @@ pub fn range_hint(h: &[u8]) -> Val {
                     ])
                 })
                 .collect()),
-        ])]),
+        ]),
     }
-}
-
-#[derive(Clone, Debug)]
-pub enum Spec {
-    FromTo(String, String),
-    From(String),
-    Suffix(String),
-}
-impl Spec {
-    pub fn render(&self) -> String {
-        match self {
-            Spec::FromTo(a, b) => format!("{}-{}", a, b),
-            Spec::From(a) => format!("{}-", a),
-            Spec::Suffix(n) => format!("-{}", n),
-        }
-    }
-}
-pub fn render_set(specs: &[(String, Spec)]) -> String {
-    // each element carries the OWS that precedes it (after the comma)
-    let mut s = String::from("bytes=");
-    for (i, (ws, sp)) in specs.iter().enumerate() {
-        if i > 0 {
-            s.push(',');
-        }
-        s.push_str(ws);
-        s.push_str(&sp.render());
-    }
-    s
 }
 
 fn range_case(len: u64, hdr: Vec<u8>, method: &str, class: String) -> ServeCase {
@@ -343,5 +349,729 @@ pub fn gen_c03(rng: &mut Rng, thorough: bool, emit: &mut dyn FnMut(ServeCase)) {
             continue;
         }
         emit(range_case(l, b.clone(), "GET", format!("A L={} {:?}", l, String::from_utf8_lossy(&b))));
+    }
+}
+
+// ======================================================================================
+// building blocks shared by the other serve-family generators
+// ======================================================================================
+
+#[derive(Clone, Debug, PartialEq)]
+pub struct Tag {
+    pub weak: bool,
+    pub opaque: Vec<u8>,
+}
+impl Tag {
+    pub fn render(&self) -> Vec<u8> {
+        let mut v = vec![];
+        if self.weak {
+            v.extend_from_slice(b"W/");
+        }
+        v.push(b'"');
+        v.extend_from_slice(&self.opaque);
+        v.push(b'"');
+        v
+    }
+    pub fn val(&self) -> Val {
+        Val::L(vec![Val::N(self.weak as u64), Val::bytes(&self.opaque)])
+    }
+}
+#[derive(Clone, Debug)]
+pub enum TagList {
+    Star,
+    List(Vec<(String, Tag)>),
+}
+impl TagList {
+    pub fn render(&self) -> Vec<u8> {
+        match self {
+            TagList::Star => b"*".to_vec(),
+            TagList::List(l) => {
+                let mut v = vec![];
+                for (i, (ws, t)) in l.iter().enumerate() {
+                    if i > 0 {
+                        v.push(b',');
+                        v.extend_from_slice(ws.as_bytes());
+                    }
+                    v.extend_from_slice(&t.render());
+                }
+                v
+            }
+        }
+    }
+    pub fn val(&self) -> Val {
+        match self {
+            TagList::Star => Val::L(vec![Val::N(0)]),
+            TagList::List(l) => {
+                let mut items = vec![l[0].1.val()];
+                for (ws, t) in &l[1..] {
+                    items.push(Val::L(vec![Val::bytes(ws.as_bytes()), t.val()]));
+                }
+                Val::L(vec![Val::N(1), Val::L(items)])
+            }
+        }
+    }
+}
+
+pub const T0: u64 = 784_111_777; // Sun, 06 Nov 1994 08:49:37 GMT
+pub fn http_date(secs: u64) -> Vec<u8> {
+    httpdate::fmt_http_date(std::time::UNIX_EPOCH + std::time::Duration::from_secs(secs)).into_bytes()
+}
+pub fn now_secs() -> u64 {
+    std::time::SystemTime::now().duration_since(std::time::UNIX_EPOCH).unwrap().as_secs()
+}
+
+pub fn etag_variants() -> Vec<Option<Tag>> {
+    vec![
+        None,
+        Some(Tag { weak: false, opaque: b"abc".to_vec() }),
+        Some(Tag { weak: true, opaque: b"abc".to_vec() }),
+        Some(Tag { weak: false, opaque: b"a, b".to_vec() }),
+    ]
+}
+pub fn mtime_variants() -> Vec<Option<u64>> {
+    vec![None, Some(T0 * 1_000_000_000), Some(T0 * 1_000_000_000 + 500_000_000)]
+}
+pub fn ehdr_sets() -> Vec<Vec<(String, Vec<u8>)>> {
+    vec![
+        vec![],
+        vec![("content-type".into(), b"text/plain".to_vec())],
+        vec![("content-type".into(), b"application/octet-stream".to_vec()), ("x-ent-a".into(), vec![b'v'; 1])],
+        vec![("x-long".into(), vec![b'z'; 200]), ("content-language".into(), b"en".to_vec()), ("x-ent-b".into(), b"two words".to_vec())],
+    ]
+}
+
+pub fn ent_with(len: u64, etag: &Option<Tag>, mtime: Option<u64>, hdrs: Vec<(String, Vec<u8>)>) -> EntityCfg {
+    let mut e = ent(len);
+    e.etag = etag.as_ref().map(|t| t.render());
+    e.mtime_ns = mtime;
+    e.hdrs = hdrs;
+    e
+}
+fn hint_etag(c: &mut ServeCase, etag: &Option<Tag>) {
+    add_hint(c, 4, Val::opt(etag.as_ref().map(|t| t.val())));
+}
+
+/// Honest chunkings of a range: the entity may split it anywhere, add empty chunks and Pendings.
+pub fn honest_recipe(rng: &mut Rng, style: u64) -> Vec<Op> {
+    match style {
+        0 => vec![Op::RestOrFault],
+        1 => {
+            // every byte its own chunk (up to 64), then the rest
+            let mut v: Vec<Op> = (0..64).map(|_| Op::Chunk(1)).collect();
+            // Chunk(1) past the end would be dishonest: the caller only uses style 1 for ranges >= 64 or uses exact()
+            v.push(Op::RestOrFault);
+            v
+        }
+        _ => {
+            let mut v = vec![];
+            let n = rng.range(0, 5);
+            for _ in 0..n {
+                match rng.below(4) {
+                    0 => v.push(Op::Pending),
+                    1 => v.push(Op::Chunk(0)),
+                    _ => v.push(Op::Chunk(rng.range(1, 3))),
+                }
+            }
+            v.push(Op::RestOrFault);
+            if rng.chance(1, 3) {
+                v.push(Op::Chunk(0));
+            }
+            if rng.chance(1, 4) {
+                v.push(Op::Pending);
+            }
+            v
+        }
+    }
+}
+
+/// An honest chunking for a range of exactly `len` bytes: explicit chunk sizes that sum to len.
+pub fn exact_recipe(rng: &mut Rng, len: u64, style: u64) -> Vec<Op> {
+    let mut v = vec![];
+    let mut left = len;
+    match style {
+        0 => {
+            if left > 0 {
+                v.push(Op::Chunk(left));
+            }
+        }
+        1 => {
+            while left > 0 {
+                v.push(Op::Chunk(1));
+                left -= 1;
+            }
+        }
+        _ => {
+            while left > 0 {
+                match rng.below(5) {
+                    0 => v.push(Op::Pending),
+                    1 => v.push(Op::Chunk(0)),
+                    _ => {
+                        let n = rng.range(1, left.min(7));
+                        v.push(Op::Chunk(n));
+                        left -= n;
+                    }
+                }
+            }
+            if rng.chance(1, 3) {
+                v.push(Op::Chunk(0));
+            }
+            if rng.chance(1, 4) {
+                v.push(Op::Pending);
+            }
+        }
+    }
+    v
+}
+
+fn tag_pool(etag: &Option<Tag>) -> Vec<Tag> {
+    let mut v = vec![
+        Tag { weak: false, opaque: b"abc".to_vec() },
+        Tag { weak: true, opaque: b"abc".to_vec() },
+        Tag { weak: false, opaque: b"xyz".to_vec() },
+        Tag { weak: true, opaque: b"xyz".to_vec() },
+        Tag { weak: false, opaque: b"a, b".to_vec() },
+        Tag { weak: true, opaque: b"a, b".to_vec() },
+        Tag { weak: false, opaque: b"".to_vec() },
+        Tag { weak: false, opaque: b"ab".to_vec() },
+        Tag { weak: false, opaque: b"abcd".to_vec() },
+        Tag { weak: false, opaque: b"ABC".to_vec() },
+        Tag { weak: false, opaque: b"W/".to_vec() },
+        Tag { weak: false, opaque: b"x,y ,z".to_vec() },
+    ];
+    if let Some(t) = etag {
+        v.push(t.clone());
+        v.push(Tag { weak: !t.weak, opaque: t.opaque.clone() });
+    }
+    v
+}
+fn rand_tag_list(rng: &mut Rng, etag: &Option<Tag>) -> TagList {
+    if rng.chance(1, 8) {
+        return TagList::Star;
+    }
+    let pool = tag_pool(etag);
+    let n = rng.range(1, 4);
+    let mut l = vec![];
+    for _ in 0..n {
+        let ws = *rng.pick(&["", " ", "\t", "  "]);
+        l.push((ws.to_string(), rng.pick(&pool).clone()));
+    }
+    TagList::List(l)
+}
+
+const MALFORMED_LISTS: [&str; 8] = ["\"foo\", bar", "\"unterminated", "W/", "abc", "\"a\" \"b\"", "\"a\",, \"b\"", " \"a\"", "\"a\";"];
+const MALFORMED_DATES: [&str; 6] = ["yesterday", "", "Sun, 06 Nov 1994 08:49:37", "1994-11-06", "Sun, 06 Nov 1994 08:49:37 GMT ", "0"];
+
+/// conditional-header mix used by several generators; returns headers plus (im, inm) ASTs when grammatical
+fn rand_conditionals(rng: &mut Rng, etag: &Option<Tag>, mtime: Option<u64>, c: &mut Vec<(String, Vec<u8>)>, hints: &mut Vec<(u64, Val)>, malformed_ok: bool) {
+    let lm_s = mtime.map(|m| m / 1_000_000_000).unwrap_or(T0);
+    for (name, key) in [("if-match", 2u64), ("if-none-match", 3u64)] {
+        if rng.chance(1, 2) {
+            continue;
+        }
+        if malformed_ok && rng.chance(1, 10) {
+            c.push((name.into(), rng.pick(&MALFORMED_LISTS).as_bytes().to_vec()));
+        } else {
+            let l = rand_tag_list(rng, etag);
+            c.push((name.into(), l.render()));
+            hints.push((key, l.val()));
+        }
+    }
+    for name in ["if-modified-since", "if-unmodified-since"] {
+        if rng.chance(1, 2) {
+            continue;
+        }
+        if malformed_ok && rng.chance(1, 10) {
+            c.push((name.into(), rng.pick(&MALFORMED_DATES).as_bytes().to_vec()));
+        } else {
+            let d = *rng.pick(&[-86400i64, -1, 0, 1, 86400]);
+            c.push((name.into(), http_date((lm_s as i64 + d).max(0) as u64)));
+        }
+    }
+}
+
+fn finish_case(mut c: ServeCase, etag: &Option<Tag>, hints: Vec<(u64, Val)>) -> ServeCase {
+    hint_etag(&mut c, etag);
+    for (k, v) in hints {
+        add_hint(&mut c, k, v);
+    }
+    c
+}
+
+/// C04: the categorical product of validators and conditional headers.
+pub fn gen_c04(rng: &mut Rng, thorough: bool, emit: &mut dyn FnMut(ServeCase)) {
+    let dates: Vec<Option<i64>> = vec![None, Some(-86400), Some(-1), Some(0), Some(1)];
+    let n_lists = if thorough { 40 } else { 3 };
+    for etag in etag_variants() {
+        for mtime in mtime_variants() {
+            let lm_s = mtime.map(|m| m / 1_000_000_000).unwrap_or(T0) as i64;
+            for ims in &dates {
+                for ius in &dates {
+                    for m in ["GET", "HEAD"] {
+                        // list choices: absent / star / sampled lists
+                        let mut list_choices: Vec<Option<TagList>> = vec![None, Some(TagList::Star)];
+                        for _ in 0..n_lists {
+                            list_choices.push(Some(rand_tag_list(rng, &etag)));
+                        }
+                        for im in &list_choices {
+                            for inm in &list_choices {
+                                if !thorough && m == "HEAD" && !rng.chance(1, 4) {
+                                    continue;
+                                }
+                                let mut h = vec![];
+                                let mut hints = vec![];
+                                if let Some(l) = im {
+                                    h.push(("if-match".to_string(), l.render()));
+                                    hints.push((2, l.val()));
+                                }
+                                if let Some(l) = inm {
+                                    h.push(("if-none-match".to_string(), l.render()));
+                                    hints.push((3, l.val()));
+                                }
+                                if let Some(d) = ims {
+                                    h.push(("if-modified-since".into(), http_date((lm_s + d) as u64)));
+                                }
+                                if let Some(d) = ius {
+                                    h.push(("if-unmodified-since".into(), http_date((lm_s + d) as u64)));
+                                }
+                                if rng.chance(1, 6) {
+                                    h.push(("range".into(), b"bytes=1-3".to_vec()));
+                                }
+                                let class = format!(
+                                    "G:c04 etag={:?} mtime={:?} {}",
+                                    etag.as_ref().map(|t| String::from_utf8_lossy(&t.render()).to_string()),
+                                    mtime,
+                                    h.iter().map(|(k, v)| format!("{}: {}", k, String::from_utf8_lossy(v))).collect::<Vec<_>>().join(" | ")
+                                );
+                                let c = case(ent_with(240, &etag, mtime, vec![]), m, h, class);
+                                emit(finish_case(c, &etag, hints));
+                            }
+                        }
+                    }
+                }
+            }
+        }
+    }
+    // malformed lists and dates: totality and the 400 paths (no claim from the C04 oracle, compared with the model)
+    let n = if thorough { 20000 } else { 1500 };
+    for _ in 0..n {
+        let etag = rng.pick(&etag_variants()).clone();
+        let mtime = *rng.pick(&mtime_variants());
+        let mut h = vec![];
+        let mut hints = vec![];
+        rand_conditionals(rng, &etag, mtime, &mut h, &mut hints, true);
+        let class = format!("N:c04 {}", h.iter().map(|(k, v)| format!("{}: {}", k, String::from_utf8_lossy(v))).collect::<Vec<_>>().join(" | "));
+        let c = case(ent_with(240, &etag, mtime, vec![]), if rng.chance(1, 5) { "HEAD" } else { "GET" }, h, class);
+        emit(finish_case(c, &etag, hints));
+    }
+}
+
+/// C05: If-Range against every kind of validator.
+pub fn gen_c05(rng: &mut Rng, thorough: bool, emit: &mut dyn FnMut(ServeCase)) {
+    let ranges: Vec<&str> = vec!["bytes=1-3", "bytes=0-1, 5-6", "bytes=500-", "bytes=abc", "bytes=-5", "bytes=0-1,3-4,9-9"];
+    for etag in etag_variants() {
+        for mtime in mtime_variants() {
+            let lm_s = mtime.map(|m| m / 1_000_000_000).unwrap_or(T0);
+            let mut ifr: Vec<(String, Vec<u8>)> = vec![];
+            if let Some(t) = &etag {
+                let r = t.render();
+                ifr.push(("same".into(), r.clone()));
+                ifr.push(("same-opaque-other-strength".into(), Tag { weak: !t.weak, opaque: t.opaque.clone() }.render()));
+                ifr.push(("prefix".into(), r[..r.len() - 1].to_vec()));
+                ifr.push(("suffix".into(), r[1..].to_vec()));
+                ifr.push(("upper".into(), r.to_ascii_uppercase()));
+                ifr.push(("lower".into(), r.to_ascii_lowercase()));
+                let mut x = r.clone();
+                x.push(b' ');
+                ifr.push(("trailing-space".into(), x));
+                let mut y = r.clone();
+                y.extend_from_slice(b", \"other\"");
+                ifr.push(("list".into(), y));
+            }
+            ifr.push(("different".into(), b"\"zzz\"".to_vec()));
+            ifr.push(("different-weak".into(), b"W/\"zzz\"".to_vec()));
+            ifr.push(("date-before".into(), http_date(lm_s - 1)));
+            ifr.push(("date-equal".into(), http_date(lm_s)));
+            ifr.push(("date-after".into(), http_date(lm_s + 1)));
+            ifr.push(("garbage".into(), b"garbage".to_vec()));
+            ifr.push(("star".into(), b"*".to_vec()));
+            ifr.push(("empty".into(), b"".to_vec()));
+            ifr.push(("quote".into(), b"\"".to_vec()));
+            ifr.push(("wslash".into(), b"W/".to_vec()));
+            ifr.push(("non-ascii".into(), vec![b'"', 0xe9, b'"']));
+            for _ in 0..(if thorough { 30 } else { 4 }) {
+                ifr.push(("arbitrary".into(), arbitrary_value(rng)));
+            }
+            for (how, v) in &ifr {
+                if http::HeaderValue::from_bytes(v).is_err() {
+                    continue;
+                }
+                for r in &ranges {
+                    for m in ["GET", "HEAD"] {
+                        for with_other in [false, true] {
+                            if with_other && !rng.chance(1, 4) {
+                                continue;
+                            }
+                            let mut h = vec![("range".to_string(), r.as_bytes().to_vec()), ("if-range".to_string(), v.clone())];
+                            let mut hints = vec![];
+                            if with_other {
+                                rand_conditionals(rng, &etag, mtime, &mut h, &mut hints, false);
+                            }
+                            let class = format!("G:c05 etag={:?} if-range={}:{:?} {} {}", etag.as_ref().map(|t| String::from_utf8_lossy(&t.render()).to_string()), how, String::from_utf8_lossy(v), r, m);
+                            let c = case(ent_with(240, &etag, mtime, ehdr_sets()[1].clone()), m, h, class);
+                            emit(finish_case(c, &etag, hints));
+                        }
+                    }
+                }
+            }
+            // no If-Range at all: Range is honoured
+            for r in &ranges {
+                let c = case(ent_with(240, &etag, mtime, vec![]), "GET", vec![("range".to_string(), r.as_bytes().to_vec())], format!("G:c05 no-if-range {}", r));
+                emit(finish_case(c, &etag, vec![]));
+            }
+        }
+    }
+}
+
+fn digits_lens() -> Vec<u64> {
+    vec![300, 1000, 100_000, (1u64 << 32) + 7, 1u64 << 63, U64MAX]
+}
+
+/// C06: multipart bodies: 2..8 satisfiable ranges, many digit widths and header sets.
+pub fn gen_c06(rng: &mut Rng, thorough: bool, emit: &mut dyn FnMut(ServeCase)) {
+    let n = if thorough { 30000 } else { 2500 };
+    for k in 0..n {
+        let l = *rng.pick(&digits_lens());
+        let nr = rng.range(2, 8);
+        let hs = rng.pick(&ehdr_sets()).clone();
+        let hs_len: u64 = hs.iter().map(|(a, b)| (a.len() + b.len() + 4) as u64).sum();
+        // keep the 80-byte estimate under L: tiny ranges on small entities
+        let maxlen = if l <= 1000 { 1 + (l / (nr * 120)).min(3) } else { 40 };
+        let mut specs: Vec<(String, Spec)> = vec![];
+        let mut prev: Option<(u64, u64)> = None;
+        for i in 0..nr {
+            let li = rng.range(1, maxlen.max(1));
+            let (a, b) = match (rng.below(8), prev) {
+                (0, Some(p)) => p,                                                // duplicate
+                (1, Some((_, pb))) if pb.checked_add(li).map_or(false, |x| x < l) => (pb + 1, pb + li),          // adjacent
+                (2, Some((pa, _))) if pa.checked_add(li).map_or(false, |x| x < l) => (pa, pa + li - 1),          // overlapping
+                (3, _) => (l - li, l - 1),                                        // at the very end
+                (4, _) => (0, li - 1),
+                _ => {
+                    let a = rng.below(l - li);
+                    (a, a + li - 1)
+                }
+            };
+            prev = Some((a, b));
+            let sp = match rng.below(10) {
+                0 if b == l - 1 => Spec::From(a.to_string()),
+                1 if b == l - 1 => Spec::Suffix((b - a + 1).to_string()),
+                2 => Spec::FromTo(a.to_string(), if b == l - 1 { U64MAX.to_string() } else { b.to_string() }),
+                _ => Spec::FromTo(a.to_string(), b.to_string()),
+            };
+            let ws = if i == 0 { "" } else { *rng.pick(&WS) };
+            specs.push((ws.to_string(), sp));
+        }
+        let h = render_set(&specs);
+        let etag = Some(Tag { weak: false, opaque: b"abc".to_vec() });
+        let mut headers = vec![("range".to_string(), h.clone().into_bytes())];
+        let with_if_range = rng.chance(1, 3);
+        if with_if_range {
+            headers.push(("if-range".into(), etag.as_ref().unwrap().render()));
+        }
+        let mut e = ent_with(l, &etag, if rng.chance(1, 2) { Some(T0 * 1_000_000_000) } else { None }, hs);
+        let style = k % 3;
+        e.default_recipe = honest_recipe(rng, if style == 1 { 2 } else { style });
+        let m = if rng.chance(1, 10) { "HEAD" } else { "GET" };
+        let class = format!("G:c06 L={} n={} ehdr_bytes={} if-range={} {:?}", l, nr, hs_len, with_if_range, h);
+        emit(finish_case(case(e, m, headers, class), &etag, vec![]));
+    }
+}
+
+fn compositions(n: u64, max_parts: usize) -> Vec<Vec<u64>> {
+    // all ways to write n as an ordered sum of 1..max_parts positive parts
+    fn go(n: u64, parts: usize, cur: &mut Vec<u64>, out: &mut Vec<Vec<u64>>) {
+        if n == 0 {
+            out.push(cur.clone());
+            return;
+        }
+        if parts == 0 {
+            return;
+        }
+        for k in 1..=n {
+            cur.push(k);
+            go(n - k, parts - 1, cur, out);
+            cur.pop();
+        }
+    }
+    let mut out = vec![];
+    go(n, max_parts, &mut vec![], &mut out);
+    out
+}
+
+/// Fault scripts for one range of `len` bytes split as `chunks`: (name, recipe).
+fn fault_scripts(chunks: &[u64]) -> Vec<(String, Vec<Op>)> {
+    let mut out = vec![];
+    let n = chunks.len();
+    let base: Vec<Op> = chunks.iter().map(|c| Op::Chunk(*c)).collect();
+    out.push(("honest".into(), base.clone()));
+    for pos in 0..=n {
+        // early end before chunk `pos` (pos = n is the honest stream)
+        if pos < n {
+            out.push((format!("early-end@{}", pos), base[..pos].to_vec()));
+            let mut v = base[..pos].to_vec();
+            v.push(Op::Err(7));
+            out.push((format!("error@{}", pos), v));
+            let mut v = base[..pos].to_vec();
+            v.push(Op::Pending);
+            v.push(Op::Err(7));
+            out.push((format!("pending-then-error@{}", pos), v));
+            let mut v = base[..pos].to_vec();
+            v.push(Op::Pending);
+            out.push((format!("pending-then-early-end@{}", pos), v));
+            // chunk pos one byte short (and then the stream ends), one byte long
+            if chunks[pos] > 1 {
+                let mut v = base[..pos].to_vec();
+                v.push(Op::Chunk(chunks[pos] - 1));
+                v.extend_from_slice(&base[pos + 1..]);
+                out.push((format!("one-byte-short@{}", pos), v));
+            }
+            let mut v = base[..pos].to_vec();
+            v.push(Op::Chunk(chunks[pos] + 1));
+            v.extend_from_slice(&base[pos + 1..]);
+            out.push((format!("one-extra-byte@{}", pos), v));
+        }
+        // an empty chunk / a Pending inserted at pos (harmless)
+        let mut v = base[..pos].to_vec();
+        v.push(Op::Chunk(0));
+        v.extend_from_slice(&base[pos..]);
+        out.push((format!("empty-chunk@{}", pos), v));
+        let mut v = base[..pos].to_vec();
+        v.push(Op::Pending);
+        v.extend_from_slice(&base[pos..]);
+        out.push((format!("pending@{}", pos), v));
+    }
+    let mut v = base.clone();
+    v.push(Op::Chunk(1));
+    out.push(("one-extra-chunk".into(), v));
+    let mut v = base.clone();
+    v.push(Op::Chunk(0));
+    v.push(Op::Chunk(2));
+    out.push(("empty-then-extra-chunk".into(), v));
+    let mut v = base.clone();
+    v.push(Op::Err(7));
+    out.push(("error-after-complete".into(), v));
+    out
+}
+
+/// C07 (and C20): every fault position x kind x response shape, exhaustive for streams of <= 4 chunks.
+pub fn gen_c07(rng: &mut Rng, thorough: bool, emit: &mut dyn FnMut(ServeCase)) {
+    let _ = rng;
+    let range_len = 4u64;
+    let comps = compositions(range_len, if thorough { 4 } else { 3 });
+    // shapes: (class, L, Range header, number of get_range calls, index of the faulty call)
+    let mut shapes: Vec<(String, u64, Option<String>, usize, usize)> = vec![
+        ("200".into(), range_len, None, 1, 0),
+        ("single-206".into(), 10, Some("bytes=3-6".into()), 1, 0),
+    ];
+    for n in 2..=3usize {
+        for j in 0..n {
+            let hdr = (0..n).map(|i| format!("{}-{}", 100 * i + 1, 100 * i + 4)).collect::<Vec<_>>().join(",");
+            shapes.push((format!("multipart-part-{}-of-{}", j + 1, n), 1000, Some(format!("bytes={}", hdr)), n, j));
+        }
+    }
+    for (sname, l, hdr, ncalls, faulty) in &shapes {
+        for comp in &comps {
+            for (fname, recipe) in fault_scripts(comp) {
+                for extra in [1u32, 4] {
+                    if extra == 4 && !thorough && !(fname.starts_with("error") || fname.starts_with("early") || fname.starts_with("one-")) {
+                        continue;
+                    }
+                    let mut e = ent(*l);
+                    e.hdrs = vec![("content-type".into(), b"text/plain".to_vec())];
+                    e.default_recipe = vec![Op::RestOrFault];
+                    e.recipes = (0..*ncalls).map(|k| if k == *faulty { recipe.clone() } else { vec![Op::RestOrFault] }).collect();
+                    let headers = match hdr {
+                        Some(h) => vec![("range".to_string(), h.as_bytes().to_vec())],
+                        None => vec![],
+                    };
+                    let mut c = case(e, "GET", headers, format!("F:{} chunks={:?} fault={} extra={}", sname, comp, fname, extra));
+                    c.extra_polls = extra;
+                    emit(c);
+                }
+            }
+        }
+    }
+}
+
+fn rand_method(rng: &mut Rng) -> &'static str {
+    match rng.below(20) {
+        0 => "POST",
+        1 => "PUT",
+        2 => "DELETE",
+        3 => "OPTIONS",
+        4 => "PATCH",
+        5 => "get",
+        6 => "PROPFIND",
+        7 => "X-CUSTOM_M!",
+        8..=10 => "HEAD",
+        _ => "GET",
+    }
+}
+
+fn rand_range_value(rng: &mut Rng, l: u64) -> Vec<u8> {
+    match rng.below(10) {
+        0 => arbitrary_value(rng),
+        1 | 2 => {
+            let nums = boundary_numbers(l);
+            let k = rng.range(1, 3);
+            let specs: Vec<(String, Spec)> = (0..k).map(|i| ((if i == 0 { "" } else { *rng.pick(&WS) }).to_string(), rand_spec(rng, &nums))).collect();
+            let h = render_set(&specs);
+            if rng.chance(1, 3) { mutate(rng, &h).0 } else { h.into_bytes() }
+        }
+        _ => {
+            // small satisfiable ranges
+            let k = rng.range(1, 4);
+            let mut specs = vec![];
+            for i in 0..k {
+                let li = rng.range(1, 6);
+                let a = rng.below(l.saturating_sub(li).max(1));
+                let sp = match rng.below(6) {
+                    0 => Spec::Suffix(li.to_string()),
+                    1 if l > 0 && l - a <= 4096 => Spec::From(a.to_string()),
+                    _ => Spec::FromTo(a.to_string(), (a + li - 1).to_string()),
+                };
+                specs.push(((if i == 0 { "" } else { *rng.pick(&WS) }).to_string(), sp));
+            }
+            render_set(&specs).into_bytes()
+        }
+    }
+}
+
+/// A request/entity mix over all dimensions (C01, C02, C12, C13, C15, C20 draw from it with different weights).
+pub fn gen_mixed(rng: &mut Rng, n: u64, profile: &str, emit: &mut dyn FnMut(ServeCase)) {
+    let lens: Vec<u64> = vec![0, 1, 2, 79, 80, 81, 239, 240, 241, 1000, 4095, 4096, 4097, 65535, 65536, 65537, 1 << 32, 1 << 63, U64MAX];
+    for _ in 0..n {
+        let l = if profile == "c02" { *rng.pick(&[1u64, 2, 10, 240, 241, 1000, 4096, 65537, 1 << 32, U64MAX]) } else { *rng.pick(&lens) };
+        let etag = rng.pick(&etag_variants()).clone();
+        let mtime = match rng.below(8) {
+            0 => Some(0),
+            1 => Some(T0 * 1_000_000_000 + 1_000_000),
+            2 => Some(T0 * 1_000_000_000 + 999_999_999),
+            3 => Some((now_secs() + 86400) * 1_000_000_000),
+            _ => *rng.pick(&mtime_variants()),
+        };
+        let hs = rng.pick(&ehdr_sets()).clone();
+        let mut e = ent_with(l, &etag, mtime, hs);
+        let method = if profile == "c13" { rand_method(rng) } else if rng.chance(1, 6) { "HEAD" } else if profile == "c01" && rng.chance(1, 12) { "POST" } else { "GET" };
+        let mut h: Vec<(String, Vec<u8>)> = vec![];
+        let mut hints = vec![];
+        let p_range = if profile == "c02" { 9 } else { 6 };
+        if rng.below(10) < p_range {
+            h.push(("range".into(), rand_range_value(rng, l)));
+        }
+        let p_cond = if profile == "c02" { 1 } else if profile == "c13" { 6 } else { 3 };
+        if rng.below(10) < p_cond {
+            let malformed_ok = profile == "c13" || rng.chance(1, 4);
+            rand_conditionals(rng, &etag, mtime, &mut h, &mut hints, malformed_ok);
+        }
+        if rng.chance(1, if profile == "c13" { 3 } else { 8 }) {
+            let v = match (rng.below(4), &etag) {
+                (0, Some(t)) => t.render(),
+                (1, _) => http_date(T0),
+                (2, _) => b"\"zzz\"".to_vec(),
+                _ => arbitrary_value(rng),
+            };
+            h.push(("if-range".into(), v));
+        }
+        if profile == "c13" {
+            // arbitrary bytes in any header, repeated header lines
+            if rng.chance(1, 3) {
+                let name = *rng.pick(&["range", "if-range", "if-match", "if-none-match", "if-modified-since", "if-unmodified-since"]);
+                h.push((name.into(), arbitrary_value(rng)));
+            }
+            if rng.chance(1, 4) && !h.is_empty() {
+                let (k, _) = rng.pick(&h).clone();
+                h.push((k, arbitrary_value(rng)));
+            }
+            if rng.chance(1, 4) {
+                rng_shuffle(rng, &mut h);
+            }
+        }
+        h.retain(|(_, v)| http::HeaderValue::from_bytes(v).is_ok());
+        // grammatical hints are only valid for the first value of a name and when not malformed: drop hints if a name repeats
+        let mut names: Vec<&String> = h.iter().map(|(k, _)| k).collect();
+        names.sort();
+        let dup = names.windows(2).any(|w| w[0] == w[1]);
+        if dup {
+            hints.clear();
+        }
+        // chunking
+        let style = rng.below(4);
+        e.default_recipe = if profile == "c20" || (profile != "c02" && rng.chance(1, 6)) {
+            // faulty streams
+            match rng.below(5) {
+                0 => vec![Op::Chunk(1), Op::Err(3)],
+                1 => vec![Op::Chunk(2)],
+                2 => vec![Op::RestOrFault, Op::Chunk(1)],
+                3 => vec![Op::Pending, Op::Chunk(1), Op::Pending, Op::Err(4)],
+                _ => vec![],
+            }
+        } else {
+            honest_recipe(rng, if style == 1 { 2 } else { style })
+        };
+        let class = format!(
+            "M:{} L={} {} etag={:?} mtime={:?} | {}",
+            profile,
+            l,
+            method,
+            etag.as_ref().map(|t| String::from_utf8_lossy(&t.render()).to_string()),
+            mtime,
+            h.iter().map(|(k, v)| format!("{}: {}", k, String::from_utf8_lossy(v))).collect::<Vec<_>>().join(" | ")
+        );
+        let mut c = case(e, method, h.clone(), class);
+        if dup {
+            c.hints = Val::L(vec![]);
+        }
+        c.extra_polls = rng.range(1, 4) as u32;
+        emit(finish_case(c, &etag, hints));
+    }
+}
+
+fn rng_shuffle<T>(rng: &mut Rng, v: &mut Vec<T>) {
+    for i in (1..v.len()).rev() {
+        let j = rng.below(i as u64 + 1) as usize;
+        v.swap(i, j);
+    }
+}
+
+/// Small-range chunkings, exhaustive: every split of ranges of <= 6 bytes (C01/C02).
+pub fn gen_chunkings(rng: &mut Rng, thorough: bool, emit: &mut dyn FnMut(ServeCase)) {
+    let maxlen = if thorough { 6 } else { 5 };
+    for len in 1..=maxlen {
+        for comp in compositions(len, len as usize) {
+            for shape in 0..3 {
+                let recipe: Vec<Op> = comp.iter().map(|c| Op::Chunk(*c)).collect();
+                let (l, headers, ncalls) = match shape {
+                    0 => (len, vec![], 1),
+                    1 => (100, vec![("range".to_string(), format!("bytes=7-{}", 7 + len - 1).into_bytes())], 1),
+                    _ => (2000, vec![("range".to_string(), format!("bytes=7-{}, 1000-{}", 7 + len - 1, 1000 + len - 1).into_bytes())], 2),
+                };
+                let mut e = ent(l);
+                e.recipes = (0..ncalls).map(|_| recipe.clone()).collect();
+                emit(case(e, "GET", headers, format!("X:chunking shape={} split={:?}", shape, comp)));
+            }
+        }
+    }
+    // random chunkings with empty chunks and Pendings
+    let n = if thorough { 20000 } else { 1500 };
+    for _ in 0..n {
+        let len = rng.range(1, 300);
+        let a = rng.below(1000);
+        let l = *rng.pick(&[a + len, a + len + 1, 100_000, U64MAX]);
+        let mut e = ent(l);
+        let style = rng.below(3);
+        e.default_recipe = exact_recipe(rng, len, style);
+        let hdr = if l == a + len && rng.chance(1, 2) { format!("bytes={}-", a) } else { format!("bytes={}-{}", a, a + len - 1) };
+        emit(case(e, "GET", vec![("range".to_string(), hdr.clone().into_bytes())], format!("X:chunking-random L={} {} style={}", l, hdr, style)));
     }
 }
